@@ -306,7 +306,15 @@ func (g *Gen) expr(t *Type, depth int) Expr {
 		case 7:
 			if g.F.Pow {
 				g.cover("int**")
-				return Infix{"**", IntLit{int64(g.R.Intn(7)) - 3}, IntLit{int64(g.R.Intn(6))}}
+				base := fw.Pick(g.R, []int64{-3, -2, -1, 1, 2, 3, 7, 10, -10})
+				exp := int64(g.R.Intn(6))
+				switch g.R.Intn(6) {
+				case 0:
+					exp = int64(20 + g.R.Intn(45)) // exact results beyond 2^53 and wrap-around
+				case 1:
+					exp = -int64(1 + g.R.Intn(3))
+				}
+				return Infix{"**", IntLit{base}, IntLit{exp}}
 			}
 		case 8:
 			if g.F.Casts {
@@ -868,6 +876,21 @@ func (g *Gen) nestedListStmts(d int) []Stmt {
 		out = append(out, ExprStmt{MCall{Recv: Index{mv, IntLit{-1}}, Name: "push", Args: []Expr{g.pureExpr(Int, d-1)}, Ret: Null}})
 	}
 	out = append(out, ExprStmt{Builtin{"println", []Expr{StrLit{"nl"}, mv, av, Var{b.name, b.t}}}})
+	if g.F.Loops && g.R.Chance(1, 2) {
+		// iterate a list reached through an index expression twice, leaving the first loop early
+		g.cover("for-over-place")
+		place := Index{mv, IntLit{int64(g.R.Intn(2))}}
+		for pass := 0; pass < 2; pass++ {
+			g.nameN++
+			x := "fp" + letters(g.nameN)
+			body := &Block{}
+			if pass == 0 {
+				body.Stmts = append(body.Stmts, ExprStmt{If{Cond: Infix{"==", Var{x, Int}, Index{place, IntLit{0}}}, Then: &Block{Stmts: []Stmt{Break{}}}}})
+			}
+			body.Stmts = append(body.Stmts, ExprStmt{Builtin{"println", []Expr{StrLit{"fp"}, Var{x, Int}}}})
+			out = append(out, For{Name: x, Iter: place, Body: body})
+		}
+	}
 	return out
 }
 
